@@ -87,6 +87,10 @@ func main() {
 		os.Exit(2)
 	}
 	name := os.Args[1]
+	if name == "pipechild" {
+		runPipeChild(os.Args[2])
+		return
+	}
 	d, ok := drivers[name]
 	if !ok {
 		fmt.Fprintln(os.Stderr, "unknown driver", name)
